@@ -227,7 +227,7 @@ def parseInstr : P Instr := do
   let fn : Fn ← (match k with
     | "c" | "cp" => (do let c ← cell; pure (Fn.const c) : P Fn)
     | "col" => (do let b ← bytes; pure (Fn.colCopy b) : P Fn)
-    | "f0i" | "f0f" | "f0b" | "f0s" => (do let i ← int; pure (Fn.f0 k i) : P Fn)
+    | "f0i" | "f0f" | "f0b" | "f0s" | "f0r" => (do let i ← int; pure (Fn.f0 k i) : P Fn)
     | "f1" => (do let i ← next; pure (Fn.f1 i) : P Fn)
     | "f2" => (do let i ← next; pure (Fn.f2 i) : P Fn)
     | "bi" => (do let b ← bytes; pure (Fn.builtin b) : P Fn)
